@@ -1,11 +1,13 @@
 (** C38 — Annotations blame the commit that introduced each line.
-    Model/C38.v transcribes lib/src/annotate.rs: [process_commits] with its early exit,
+    Model/C38.v transcribes lib/src/annotate.rs: [FileAnnotator::compute] may be called several
+    times on the same annotator ([run_phases]); every call is [process_commits] (reset of
+    [num_unresolved_roots], walk of that call's graph stream with the early exit) over
     [process_commit] (per edge: the peeking split of the current line map over the matching
     hunks, the sorted merge into the parent's line map, dropping empty parents, [Err] origins
-    for missing edges, [Ok] origins for what is left).  The graph stream of the searched
-    revset and the by-line matching of every (commit, edge target) pair are inputs; their
-    validity ([inputs_ok]: edges point to ancestors, hunks ascend and pair equal lines) is
-    decidable, is a hypothesis of the theorems and is checked on every case. *)
+    for missing edges with the omitted parent counted once, [Ok] origins for what is left).
+    The graph stream of every call and the by-line matching of every (commit, edge target)
+    pair are inputs; their validity ([inputs_ok], [stream_okb]) is decidable, is a hypothesis
+    of the theorems and is checked on every case. *)
 From Verif Require Import Base.Prelude Base.DagR Model.C38 Proofs.C38 Proofs.C38Case Proofs.C38Strict.
 Local Open Scope nat_scope.
 
@@ -13,28 +15,30 @@ Section Statements.
   Variable c : case.
   Hypothesis Hin : inputs_ok c = true.
   Let start := N.to_nat (c_start c).
+  (** the origins after any of the [compute] calls *)
+  Variable os : list origin.
+  Hypothesis Hos : In os (model_origins c).
 
   (** The annotation has one origin per line of the starting file (and its text is the
       file). *)
-  Theorem C38_text_is_file :
-    length (model_origins c) = length (case_text c start).
-  Proof. exact (proj1 (prop_ok_spec c _ _ (model_ok c Hin))). Qed.
+  Theorem C38_text_is_file : length os = length (case_text c start).
+  Proof. exact (proj1 (prop_ok_spec c _ _ (model_ok c Hin os Hos))). Qed.
 
   (** The blamed commit's version of the file contains the line, at the blamed number. *)
-  Theorem C38_origin_contains_line : forall s o, nth_error (model_origins c) s = Some o ->
+  Theorem C38_origin_contains_line : forall s o, nth_error os s = Some o ->
     exists l, nth_error (case_text c (o_commit o)) (o_line o) = Some l /\
               nth_error (case_text c start) s = Some l.
   Proof.
-    intros s o H. exact (proj1 (proj2 (proj2 (prop_ok_spec c _ _ (model_ok c Hin))) s o H)).
+    intros s o H. exact (proj1 (proj2 (proj2 (prop_ok_spec c _ _ (model_ok c Hin os Hos))) s o H)).
   Qed.
 
   (** The blamed commit is an ancestor of the starting commit. *)
-  Theorem C38_origin_is_ancestor : forall s o, nth_error (model_origins c) s = Some o ->
+  Theorem C38_origin_is_ancestor : forall s o, nth_error os s = Some o ->
     start < length (case_graph c) /\
     exists k, reach (parents (case_graph c)) k start (o_commit o).
   Proof.
     intros s o H.
-    assert (Ha := proj1 (proj2 (proj2 (proj2 (prop_ok_spec c _ _ (model_ok c Hin))) s o H))).
+    assert (Ha := proj1 (proj2 (proj2 (proj2 (prop_ok_spec c _ _ (model_ok c Hin os Hos))) s o H))).
     unfold inputs_ok in Hin. rewrite !andb_true_iff in Hin.
     destruct Hin as [[[[Hwf Hpc] Hsm] _] _].
     apply (is_anc_spec (case_graph c)); auto.
@@ -43,51 +47,104 @@ Section Statements.
     - now apply N.leb_le.
   Qed.
 
-  (** A resolved ([Ok]) origin is a commit of the searched graph, and its line is unmatched
-      by the diff with every parent (edge target) of that commit in the searched range. *)
-  Theorem C38_not_from_parent : forall s o, nth_error (model_origins c) s = Some o ->
-    o_ok o = true ->
+  (** A resolved ([Ok]) origin is a commit of a searched graph, and its line is unmatched by
+      the diff with every parent (edge target) of that commit in the searched range. *)
+  Theorem C38_not_from_parent : forall s o, nth_error os s = Some o -> o_ok o = true ->
     exists nd, In nd (case_nodes c) /\ fst nd = o_commit o /\
       forall e, In e (snd nd) ->
         in_ranges (o_line o) (case_matching c (o_commit o) (fst e)) = false.
   Proof.
     intros s o H.
-    exact (proj1 (proj2 (proj2 (proj2 (proj2 (prop_ok_spec c _ _ (model_ok c Hin))) s o H)))).
-  Qed.
-
-  (** An unresolved ([Err]) origin is the target of a missing edge — a commit OUTSIDE the
-      searched range (never the placeholder naming the start): when the recorded stream is
-      closed ([stream_okb]: distinct nodes, missing targets are not nodes, every non-missing
-      edge target appears later, the start is a node), the early exit of [process_commits]
-      never leaves a commit of the domain pending.  Holds for the code after the repair
-      (fix 26901e2 in /repo); see [C38_unresolved_outside_old_refuted] for the behaviour
-      before it. *)
-  Theorem C38_unresolved_outside : stream_okb c = true ->
-    forall s o, nth_error (model_origins c) s = Some o -> o_ok o = false ->
-    exists nd e, In nd (case_nodes c) /\ In e (snd nd) /\ is_missing e = true /\
-                 fst e = o_commit o.
-  Proof.
-    intros Hs s o H Hk. assert (Hst := model_strict_ok c Hs).
-    unfold strict_ok in Hst. rewrite forallb_forall in Hst.
-    specialize (Hst o (nth_error_In _ _ H)). rewrite Hk in Hst. cbn [orb] in Hst.
-    apply existsb_exists in Hst. destruct Hst as [nd [Hnd He]].
-    apply existsb_exists in He. destruct He as [e [He Hm]]. apply andb_true_iff in Hm.
-    destruct Hm as [Hm Hf]. apply Nat.eqb_eq in Hf. exists nd, e. auto.
+    exact (proj1 (proj2 (proj2 (proj2 (proj2 (prop_ok_spec c _ _ (model_ok c Hin os Hos))) s o H)))).
   Qed.
 End Statements.
 
-(** All of the above at once, in the form the per-case checker uses. *)
-Theorem C38_model_ok : forall c : case, inputs_ok c = true -> stream_okb c = true ->
-  prop_ok c (model_origins c) (case_text c (N.to_nat (c_start c))) = true /\
-  strict_ok c (model_origins c) = true.
-Proof. intros c H1 H2. split; [now apply model_ok|now apply model_strict_ok]. Qed.
+(** After EVERY [compute] call, an unresolved ([Err]) origin is the target of a missing edge
+    of THAT call's stream — a commit OUTSIDE the range that call searched: never the
+    placeholder naming the start, never a root left over from an earlier, narrower call — and
+    only such commits are still pending.  Needs the streams to be closed ([stream_okb]:
+    distinct nodes, missing targets are not nodes, every non-missing edge target appears
+    later, every commit pending when the call starts is a node of its stream) and a non-empty
+    file.  In particular a call whose stream has no missing edge (domain [all()]) leaves
+    nothing unresolved and nothing pending ([C38_full_domain_resolves]).  Holds for the code
+    after the repair 26901e2; see [C38_unresolved_outside_old_refuted]. *)
+Theorem C38_unresolved_outside : forall c : case, stream_okb c = true ->
+  0 < length (case_text c (N.to_nat (c_start c))) ->
+  forall k ns st, nth_error (case_phases c) k = Some ns -> nth_error (model_states c) k = Some st ->
+  (forall o, In o (st_olm st) -> o_ok o = false ->
+     exists nd e, In nd ns /\ In e (snd nd) /\ is_missing e = true /\ fst e = o_commit o) /\
+  (forall p, In p (map fst (st_srcs st)) ->
+     exists nd e, In nd ns /\ In e (snd nd) /\ is_missing e = true /\ fst e = p).
+Proof.
+  intros c Hs Hpos k ns st Hk Hst.
+  destruct (model_strict_ok c Hs Hpos k ns st Hk Hst) as [H1 H2].
+  assert (Hmt : forall p, is_mtb ns p = true ->
+            exists nd e, In nd ns /\ In e (snd nd) /\ is_missing e = true /\ fst e = p).
+  { intros p H. exact (is_mt_elim ns p H). }
+  split.
+  - intros o Ho Hk'. unfold strict_ok in H1. rewrite forallb_forall in H1.
+    specialize (H1 o Ho). rewrite Hk' in H1. cbn [orb] in H1. now apply Hmt.
+  - intros p Hp. unfold pending_ok in H2. rewrite forallb_forall in H2. apply Hmt. now apply H2.
+Qed.
 
-(** Meaning of the checker [okb] on the implementation's [line_origins()] / [text()]
-    ([okb] additionally requires [strict_ok]: no unresolved origin names the start). *)
-Theorem C38_checker_spec : forall c : case, okb c = true ->
-  length (case_origins c) = length (case_text c (N.to_nat (c_start c))) /\
-  lines_of (c_text c) = case_text c (N.to_nat (c_start c)) /\
-  forall s o, nth_error (case_origins c) s = Some o ->
+Theorem C38_full_domain_resolves : forall c : case, stream_okb c = true ->
+  0 < length (case_text c (N.to_nat (c_start c))) ->
+  forall k ns st, nth_error (case_phases c) k = Some ns -> nth_error (model_states c) k = Some st ->
+  (forall nd e, In nd ns -> In e (snd nd) -> is_missing e = false) ->
+  (forall o, In o (st_olm st) -> o_ok o = true) /\ st_srcs st = [].
+Proof.
+  intros c Hs Hpos k ns st Hk Hst Hnm.
+  destruct (C38_unresolved_outside c Hs Hpos k ns st Hk Hst) as [H1 H2]. split.
+  - intros o Ho. destruct (o_ok o) eqn:E; auto.
+    destruct (H1 o Ho E) as [nd [e [Hnd [He [Hm _]]]]]. rewrite (Hnm nd e Hnd He) in Hm. discriminate.
+  - destruct (st_srcs st) as [|[p m] t]; auto.
+    destruct (H2 p (or_introl eq_refl)) as [nd [e [Hnd [He [Hm _]]]]].
+    rewrite (Hnm nd e Hnd He) in Hm. discriminate.
+Qed.
+
+(** All of it at once, in the form the per-case checker uses. *)
+Theorem C38_model_ok : forall c : case, inputs_ok c = true -> stream_okb c = true ->
+  0 < length (case_text c (N.to_nat (c_start c))) ->
+  (forall os, In os (model_origins c) ->
+     prop_ok c os (case_text c (N.to_nat (c_start c))) = true) /\
+  (forall k ns st, nth_error (case_phases c) k = Some ns -> nth_error (model_states c) k = Some st ->
+     strict_ok ns (st_olm st) = true /\ pending_ok ns (map fst (st_srcs st)) = true).
+Proof. intros c H1 H2 H3. split; [now apply model_ok|now apply model_strict_ok]. Qed.
+
+(** Meaning of the checker [okb] on the implementation's outputs: after every call the real
+    [line_origins()] / [text()] satisfy the property, and the strict clause holds for the
+    real origins and the real [pending_commits()] w.r.t. that call's stream. *)
+Theorem C38_checker_spec : forall (c : case) k ns os pd, okb c = true ->
+  nth_error (case_phases c) k = Some ns -> nth_error (case_origins c) k = Some os ->
+  nth_error (case_pending c) k = Some pd ->
+  prop_ok c os (lines_of (c_text c)) = true /\
+  (forall o, In o os -> o_ok o = false ->
+     exists nd e, In nd ns /\ In e (snd nd) /\ is_missing e = true /\ fst e = o_commit o) /\
+  (forall p, In p pd ->
+     exists nd e, In nd ns /\ In e (snd nd) /\ is_missing e = true /\ fst e = p).
+Proof.
+  intros c k ns os pd H. unfold okb in H. revert k H.
+  generalize (case_phases c) (case_origins c) (case_pending c).
+  induction l as [|n0 t IH]; intros [|o0 ot] [|p0 pt] k H Hn Ho Hp;
+    try (destruct k; discriminate); cbn [phases_okb] in H; try discriminate.
+  rewrite !andb_true_iff in H. destruct H as [[[Ha Hb] Hc] Hd].
+  destruct k as [|k]; cbn in Hn, Ho, Hp.
+  - inversion Hn; inversion Ho; inversion Hp; subst. split; [exact Ha|].
+    assert (Hmt : forall p, is_mtb ns p = true ->
+              exists nd e, In nd ns /\ In e (snd nd) /\ is_missing e = true /\ fst e = p)
+      by (intros p Hq; exact (is_mt_elim ns p Hq)).
+    split.
+    + intros o Hin Hk. unfold strict_ok in Hb. rewrite forallb_forall in Hb.
+      specialize (Hb o Hin). rewrite Hk in Hb. cbn [orb] in Hb. now apply Hmt.
+    + intros p Hin. unfold pending_ok in Hc. rewrite forallb_forall in Hc. apply Hmt. now apply Hc.
+  - exact (IH ot pt k Hd Hn Ho Hp).
+Qed.
+
+Theorem C38_prop_ok_spec : forall (c : case) (os : list origin) (txt : text),
+  prop_ok c os txt = true ->
+  length os = length (case_text c (N.to_nat (c_start c))) /\
+  txt = case_text c (N.to_nat (c_start c)) /\
+  forall s o, nth_error os s = Some o ->
     (exists l, nth_error (case_text c (o_commit o)) (o_line o) = Some l /\
                nth_error (case_text c (N.to_nat (c_start c))) s = Some l) /\
     is_anc (case_graph c) (o_commit o) (N.to_nat (c_start c)) = true /\
@@ -99,53 +156,43 @@ Theorem C38_checker_spec : forall c : case, okb c = true ->
        o_commit o = N.to_nat (c_start c) \/
        exists nd e, In nd (case_nodes c) /\ In e (snd nd) /\ is_missing e = true /\
                     fst e = o_commit o).
-Proof.
-  intros c H. unfold okb in H. apply andb_true_iff in H. exact (prop_ok_spec c _ _ (proj1 H)).
-Qed.
-
-Theorem C38_checker_strict : forall c : case, okb c = true ->
-  forall o, In o (case_origins c) -> o_ok o = false ->
-  exists nd e, In nd (case_nodes c) /\ In e (snd nd) /\ is_missing e = true /\
-               fst e = o_commit o.
-Proof.
-  intros c H o Hin Hk. unfold okb in H. apply andb_true_iff in H. destruct H as [_ H].
-  unfold strict_ok in H. rewrite forallb_forall in H. specialize (H o Hin).
-  rewrite Hk in H. cbn [orb] in H.
-  apply existsb_exists in H. destruct H as [nd [Hnd He]].
-  apply existsb_exists in He. destruct He as [e [He Hm]]. apply andb_true_iff in Hm.
-  destruct Hm as [Hm Hf]. apply Nat.eqb_eq in Hf. exists nd, e. auto.
-Qed.
+Proof. exact prop_ok_spec. Qed.
 
 (** FIXED FINDING (annotate-unresolved-root-counted-twice, /repo fix 26901e2).  Before the
     repair an omitted parent was counted in [num_unresolved_roots] once per missing edge
     reaching it ([old = true] in the model), so [process_commits] could stop while a commit
-    inside the domain was still pending.  Witness (recorded from the real [FileAnnotator]
-    before the repair; also corpus case 0 of the harness): p (omitted) has the children q, c2
-    and c1 = merge(p, q); start = merge(c1, c2); domain = p..start.  With the old counting
-    the line "q1", introduced by q (a node of the searched graph), keeps the placeholder
-    [Err (start, 1)]; with the repaired counting it is blamed on q. *)
+    inside the domain was still pending.  Witness (corpus case 0 of the harness): p (omitted)
+    has the children q, c2 and c1 = merge(p, q); start = merge(c1, c2); domain = p..start.
+    With the old counting the line "q1", introduced by q (a node of the searched graph),
+    keeps the placeholder [Err (start, 1)]; with the repaired counting it is blamed on q. *)
 Definition C38_witness : case :=
   mk_case [[]; [0]; [1]; [1]; [1; 2]; [4; 3]]%N
     [hex ""; hex "6c300a6c310a6c320a6c330a"; hex "6c300a71310a6c320a6c330a";
      hex "6c300a6c310a6332320a6c330a"; hex "6331300a71310a6c320a6c330a";
      hex "6331300a71310a6332320a6c330a"]
     5%N
-    [(5, [(4, 0); (3, 0)]); (4, [(1, 2); (2, 0)]); (3, [(1, 2)]); (2, [(1, 2)])]%N
+    [[(5, [(4, 0); (3, 0)]); (4, [(1, 2); (2, 0)]); (3, [(1, 2)]); (2, [(1, 2)])]]%N
     [((5, 4), [(0, 0, 2); (3, 3, 1)]); ((5, 3), [(2, 2, 2)]); ((4, 1), [(2, 2, 2)]);
      ((4, 2), [(1, 1, 3)]); ((3, 1), [(0, 0, 2); (3, 3, 1)]); ((2, 1), [(0, 0, 1); (2, 2, 2)])]%N
-    [(true, 4, 0); (true, 2, 1); (true, 3, 2); (false, 1, 3)]%N
+    [[(true, 4, 0); (true, 2, 1); (true, 3, 2); (false, 1, 3)]]%N
+    [[1]]%N
     (hex "6331300a71310a6332320a6c330a").
 Theorem C38_unresolved_outside_old_refuted :
   inputs_ok C38_witness = true /\ stream_okb C38_witness = true /\
   shared_omitted_parent C38_witness = true /\
   (* before the repair: the placeholder survives, the strict clause fails *)
-  nth_error (model_origins_old C38_witness) 1 = Some (mk_origin false 5 1) /\
-  strict_ok C38_witness (model_origins_old C38_witness) = false /\
+  (exists os, model_origins_old C38_witness = [os] /\
+     nth_error os 1 = Some (mk_origin false 5 1) /\
+     forallb (fun ns => strict_ok ns os) (case_phases C38_witness) = false) /\
   (* after the repair: the line is blamed on q, the whole property holds *)
-  nth_error (model_origins C38_witness) 1 = Some (mk_origin true 2 1) /\
   model_origins C38_witness = case_origins C38_witness /\
   okb C38_witness = true.
-Proof. repeat split; vm_compute; reflexivity. Qed.
+Proof.
+  split; [vm_compute; reflexivity|]. split; [vm_compute; reflexivity|].
+  split; [vm_compute; reflexivity|]. split.
+  - eexists. split; [vm_compute; reflexivity|]. split; vm_compute; reflexivity.
+  - split; vm_compute; reflexivity.
+Qed.
 
 (** The line-splitting of the hunks is an exact partition: the lines kept by the current
     commit are the unmatched ones, the lines handed to the parent are the matched ones,
@@ -160,40 +207,52 @@ Proof.
   exact (split_lines_spec rs cur [] [] 0 0 rest nc' np' Hs Ha (fun _ _ => Nat.le_0_l _) H).
 Qed.
 
-(** Non-vacuity: a merge history where the start is a merge of two edited branches. *)
-Definition C38_ex : case :=
-  mk_case [[]; [0]; [1]; [1]; [2; 3]]%N
-          [hex ""; hex "610a620a"; hex "610a780a620a"; hex "610a620a790a"; hex "610a780a620a790a"]
-          4%N
-          [(4, [(2, 0); (3, 0)]); (3, [(1, 0)]); (2, [(1, 0)]); (1, [(0, 2)])]%N
-          [((4, 2), [(0, 0, 3)]); ((4, 3), [(0, 0, 1); (2, 1, 2)]); ((3, 1), [(0, 0, 2)]);
-           ((2, 1), [(0, 0, 1); (2, 1, 1)]); ((1, 0), [])]%N
-          [(true, 1, 0); (true, 2, 1); (true, 1, 1); (true, 3, 2)]%N
-          (hex "610a780a620a790a").
-Example C38_nonvacuous :
-  inputs_ok C38_ex = true /\ okb C38_ex = true /\
-  model_origins C38_ex = case_origins C38_ex.
-Proof. repeat split; vm_compute; reflexivity. Qed.
-
 (** Corpus case 1 of the harness ("fork below the domain"): the omitted fork point P = 1 is
-    reached through two missing edges, from c2 = 3 (handing down lines 2, 3) and then from
-    c1 = 2 (handing down lines 0, 1, which the first child did not carry).  EVERY line left
-    in the omitted parent is marked [Err (P, its line in P)], also on the second visit. *)
+    reached through two missing edges, each handing down lines the other did not carry;
+    EVERY line left in the omitted parent is marked [Err (P, its line in P)]. *)
 Definition C38_fork_case : case :=
   mk_case [[]; [0]; [1]; [1]; [2; 3]]%N
     [hex ""; hex "6c300a6c310a6c320a6c330a"; hex "6c300a6c310a63305f320a63305f330a";
      hex "63315f300a63315f310a6c320a6c330a"; hex "6c300a6c310a6c320a6c330a"]
     4%N
-    [(4, [(2, 0); (3, 0)]); (3, [(1, 2)]); (2, [(1, 2)])]%N
+    [[(4, [(2, 0); (3, 0)]); (3, [(1, 2)]); (2, [(1, 2)])]]%N
     [((4, 2), [(0, 0, 2)]); ((4, 3), [(2, 2, 2)]); ((3, 1), [(2, 2, 2)]); ((2, 1), [(0, 0, 2)])]%N
-    [(false, 1, 0); (false, 1, 1); (false, 1, 2); (false, 1, 3)]%N
+    [[(false, 1, 0); (false, 1, 1); (false, 1, 2); (false, 1, 3)]]%N
+    [[1]]%N
     (hex "6c300a6c310a6c320a6c330a").
 Example C38_fork_case_ok :
   inputs_ok C38_fork_case = true /\ stream_okb C38_fork_case = true /\
   model_origins C38_fork_case = case_origins C38_fork_case /\ okb C38_fork_case = true /\
   (* leaving the second hand-down unmarked (placeholder Err(start, _)) is rejected *)
-  strict_ok C38_fork_case
-    [mk_origin false 4 0; mk_origin false 4 1; mk_origin false 1 2; mk_origin false 1 3] = false.
+  forallb (fun ns => strict_ok ns
+    [mk_origin false 4 0; mk_origin false 4 1; mk_origin false 1 2; mk_origin false 1 3])
+    (case_phases C38_fork_case) = false.
+Proof. repeat split; vm_compute; reflexivity. Qed.
+
+(** Corpus case 2 of the harness (two calls on one annotator): the same history annotated
+    first within P..start (all four lines unresolved at the omitted P, P pending), then
+    within all(): the second call restarts from the pending P with a fresh count and
+    resolves every line (nothing unresolved, nothing pending).  A stale count from the first
+    call would stop the second one at once and leave the first call's origins. *)
+Definition C38_two_phase_case : case :=
+  mk_case [[]; [0]; [1]; [1]; [2; 3]]%N
+    [hex ""; hex "6c300a6c310a6c320a6c330a"; hex "6c300a6c310a63305f320a63305f330a";
+     hex "63315f300a63315f310a6c320a6c330a"; hex "6c300a6c310a6c320a6c330a"]
+    4%N
+    [[(4, [(2, 0); (3, 0)]); (3, [(1, 2)]); (2, [(1, 2)])]; [(1, [(0, 2)])]]%N
+    [((4, 2), [(0, 0, 2)]); ((4, 3), [(2, 2, 2)]); ((3, 1), [(2, 2, 2)]); ((2, 1), [(0, 0, 2)]);
+     ((1, 0), [])]%N
+    [[(false, 1, 0); (false, 1, 1); (false, 1, 2); (false, 1, 3)];
+     [(true, 1, 0); (true, 1, 1); (true, 1, 2); (true, 1, 3)]]%N
+    [[1]; []]%N
+    (hex "6c300a6c310a6c320a6c330a").
+Example C38_two_phase_ok :
+  inputs_ok C38_two_phase_case = true /\ stream_okb C38_two_phase_case = true /\
+  model_origins C38_two_phase_case = case_origins C38_two_phase_case /\
+  okb C38_two_phase_case = true /\
+  (* the first call's origins are NOT acceptable after the second call *)
+  strict_ok [(1, [(0, 2)])] [mk_origin false 1 0; mk_origin false 1 1; mk_origin false 1 2;
+                       mk_origin false 1 3] = false.
 Proof. repeat split; vm_compute; reflexivity. Qed.
 
 Print Assumptions C38_model_ok.
